@@ -175,11 +175,51 @@ func (im *storeImpl) dsn() string {
 	return "file:" + im.dbPath() + "?_synchronous=OFF&_journal_mode=MEMORY"
 }
 
+// A session name of the line protocol is `<SenderCompID>` optionally followed by `.ss<SenderSubID>`, `.sl<SenderLocationID>`,
+// `.ts<TargetSubID>`, `.tl<TargetLocationID>`, `.q<Qualifier>` (each at most once): sessions that differ in ANY component of the
+// SessionID are different sessions for every store (file names, SQL keys).  The model treats the whole name as the key.
 func sessionIDOf(sid string) quickfix.SessionID {
-	return quickfix.SessionID{BeginString: "FIX.4.2", SenderCompID: sid, TargetCompID: "TW"}
+	parts := strings.Split(sid, ".")
+	id := quickfix.SessionID{BeginString: "FIX.4.2", SenderCompID: parts[0], TargetCompID: "TW"}
+	for _, p := range parts[1:] {
+		switch {
+		case strings.HasPrefix(p, "ss"):
+			id.SenderSubID = p[2:]
+		case strings.HasPrefix(p, "sl"):
+			id.SenderLocationID = p[2:]
+		case strings.HasPrefix(p, "ts"):
+			id.TargetSubID = p[2:]
+		case strings.HasPrefix(p, "tl"):
+			id.TargetLocationID = p[2:]
+		case strings.HasPrefix(p, "q"):
+			id.Qualifier = p[1:]
+		}
+	}
+	return id
 }
 
-func filePrefix(sid string) string { return "FIX.4.2-" + sid + "-TW" }
+// filePrefix: the file-name prefix of a session, written here independently of store/file's own function
+func filePrefix(sid string) string {
+	id := sessionIDOf(sid)
+	snd, tgt := id.SenderCompID, id.TargetCompID
+	if id.SenderSubID != "" {
+		snd += "_" + id.SenderSubID
+	}
+	if id.SenderLocationID != "" {
+		snd += "_" + id.SenderLocationID
+	}
+	if id.TargetSubID != "" {
+		tgt += "_" + id.TargetSubID
+	}
+	if id.TargetLocationID != "" {
+		tgt += "_" + id.TargetLocationID
+	}
+	pre := "FIX.4.2-" + snd + "-" + tgt
+	if id.Qualifier != "" {
+		pre += "-" + id.Qualifier
+	}
+	return pre
+}
 
 var fileExts = []string{"header", "body", "senderseqnums", "targetseqnums", "session"}
 
@@ -216,6 +256,12 @@ func (im *storeImpl) create(kind, sid, dir string) (quickfix.MessageStore, error
 	ss.Set(config.BeginString, id.BeginString)
 	ss.Set(config.SenderCompID, id.SenderCompID)
 	ss.Set(config.TargetCompID, id.TargetCompID)
+	for k, v := range map[string]string{config.SenderSubID: id.SenderSubID, config.SenderLocationID: id.SenderLocationID,
+		config.TargetSubID: id.TargetSubID, config.TargetLocationID: id.TargetLocationID, config.SessionQualifier: id.Qualifier} {
+		if v != "" {
+			ss.Set(k, v)
+		}
+	}
 	switch kind {
 	case "mem":
 		return quickfix.NewMemoryStoreFactory().Create(id)
@@ -453,6 +499,16 @@ func genSid(r *rng, used map[string]bool) string {
 			}
 		}
 		s := string(b)
+		if r.chance(1, 3) {
+			// sessions that differ in ONE optional component of the SessionID only (or have one where the other has none)
+			base := s
+			for k := range used {
+				base = strings.Split(k, ".")[0]
+				break
+			}
+			comp := r.pick([]string{"ss", "sl", "ts", "tl", "q"})
+			s = base + "." + comp + r.pick([]string{"X", "LDN", "NYC", "1"})
+		}
 		if !used[s] {
 			used[s] = true
 			return s
